@@ -74,6 +74,8 @@ def run(ctx):
         large = ctx.tier == "thorough" and rnd.random() < 0.005
         if large:
             regime = "large"
+        elif rnd.random() < 0.1:
+            regime = "medium"
         ctx.count("regime:" + regime)
         model = layout.Model(rnd, regime)
         reps = [layout.Real(gtirb, ctx,
@@ -141,8 +143,9 @@ def run(ctx):
                             targeted(ctx, rep, model, r, s)
         # identical complete final probe on every replica
         qrnd = random.Random(case.seed_str + ":final")
-        qs = model.gen_queries(qrnd, 6 if large else 20,
-                               complete_points=True)
+        qs = model.gen_queries(qrnd, 6 if large or regime == "medium"
+                               else 20, complete_points=not large and
+                               regime != "medium")
         vectors = []
         for rep in reps:
             ans = []
@@ -177,5 +180,93 @@ def run(ctx):
                         "final_queries": len(qs),
                         "answers_per_replica": len(ref)})
 
+
+    # ---- scale: one container with hundreds / thousands of members ------
+    def scale(case):
+        rnd = case.rnd
+        ctx.count("cases")
+        sizes = ctx.params.get("scale_sizes", [40, 300, 2100])
+        N = sizes[case.index % len(sizes)]
+        ratio = [0.3, 0.48, 0.7, 1.1][(case.index // len(sizes)) % 4]
+        what = "blocks" if (case.index // 2) % 2 == 0 else "intervals"
+        model = layout.Model(rnd, "large")
+        names = ["none", "after-build", "after-build+mid"]
+        reps = [layout.Real(gtirb, ctx,
+                            random.Random(case.seed_str + ":uuid"))
+                for _ in names]
+
+        def do(op):
+            for rep in reps:
+                rep.apply(op, model)
+            model.apply(op)
+
+        do({"op": "new_ir", "id": model.nid("IR")})
+        do({"op": "new_mod", "id": model.nid("M"), "ir": model.irs[0]})
+        sec = model.nid("S")
+        do({"op": "new_sec", "id": sec, "mod": list(model.mods)[0]})
+        if what == "blocks":
+            iv = model.nid("I")
+            do({"op": "new_iv", "id": iv, "addr": 0, "size": 5000,
+                "sec": sec, "via": "ctor"})
+            for _ in range(N):
+                do({"op": "new_blk", "id": model.nid("B"),
+                    "kind": rnd.choice(["code", "data"]),
+                    "off": rnd.randint(0, 3000), "size": rnd.randint(0, 6),
+                    "iv": iv, "via": "ctor"})
+        else:
+            for _ in range(N):
+                do({"op": "new_iv", "id": model.nid("I"),
+                    "addr": rnd.randint(0, 4000), "size": rnd.randint(0, 8),
+                    "sec": sec, "via": "ctor"})
+        case.ops = [{"scale": what, "members": N, "edit_ratio": ratio}]
+        q0 = rnd.randint(0, 3000)
+        for name, rep in zip(names, reps):
+            if name != "none":
+                layout.probe(ctx, rep, model, [q0], judge=False)
+        M = int(N * ratio)
+        members = list(model.blks) if what == "blocks" else list(model.ivs)
+        for step in range(M):
+            x = members[step % len(members)] if rnd.random() < 0.5 \
+                else rnd.choice(members)
+            if what == "blocks":
+                do({"op": "blk_off", "id": x, "off": rnd.randint(0, 3000)})
+            else:
+                do({"op": "iv_addr", "id": x, "addr": rnd.randint(0, 4000)})
+            if step == M // 3:
+                layout.probe(ctx, reps[2], model, [q0], judge=False)
+        qrnd = random.Random(case.seed_str + ":final")
+        qs = model.gen_queries(qrnd, 4 if N > 1000 else 10)
+        vectors = []
+        for rep in reps:
+            ans = []
+            layout.probe(ctx, rep, model, qs, answers=ans, judge=False,
+                         want=("C05", "C06"))
+            layout.check_extents(ctx, rep, model, answers=ans, judge=False)
+            vectors.append(ans)
+        for name, v in zip(names[1:], vectors[1:]):
+            ctx.count("replicas_compared")
+            ctx.count("scale:replicas_compared")
+            ctx.count("final_answers_compared", len(v))
+            if v != vectors[0]:
+                k = next(i for i, (a, b) in enumerate(zip(vectors[0], v))
+                         if a != b)
+                a, b = vectors[0][k], v[k]
+                raise Discrepancy(
+                    "C12", "schedule-dependent-answer:scale:%s:%s" % (
+                        name, a[0]),
+                    "with %d %s in one container and %d edits, %s(%s) on %s "
+                    "answers differently when no lookup was issued before "
+                    "(%d results) and under the '%s' schedule (%d results)"
+                    % (N, what, M, a[0], a[1], a[2], len(a[3]), name,
+                       len(b[3])), {"members": N, "edits": M})
+        layout.probe(ctx, reps[0], model, qs[:2], want=("C05", "C06"))
+        ctx.seen("nontrivial", ("scale", what, N, ratio, case.index))
+        ctx.count("scale:members:%d" % N)
+
+    # scale cases go to the *last* workers so that they overlap with the
+    # replica histories of the others
+    scale_cases = list(ctx.cases("scale", ctx.params.get("n_scale", 6)))
+    for case in scale_cases:
+        ctx.run_case(case, scale)
     for case in ctx.cases("replicas", ctx.params.get("n_hist", 150)):
         ctx.run_case(case, one)
